@@ -190,7 +190,15 @@ func init() {
 		need(a, 3)
 		return bstr(e.b(a[0]).IntersectsWithInterval(u64(a[1]), u64(a[2])))
 	})
-	reg("eq", func(e *env, a []string) string { need(a, 2); return bstr(e.b(a[0]).Equals(e.b(a[1]))) })
+	reg("eq", func(e *env, a []string) string {
+		need(a, 2)
+		x, y := e.b(a[0]), e.b(a[1])
+		r1, r2 := x.Equals(y), y.Equals(x)
+		if r1 != r2 {
+			return fmt.Sprintf("asymmetric:%v/%v", r1, r2)
+		}
+		return bstr(r1)
+	})
 	reg("toarr", func(e *env, a []string) string {
 		need(a, 1)
 		arr := e.b(a[0]).ToArray()
